@@ -253,6 +253,13 @@ def build_driver(name, extract_v, ml_modules, deps_vo, timeout=600):
         return rc == 0, out + out2
 
 
+def driver_binary_exists(name):
+    """a driver built earlier (from the last tree on which the build succeeded).  When a regenerated file no longer
+    compiles the build of the driver fails, but the old binary still contains the Spec evaluator and the last good model:
+    the search for a failing input can go on with it (the check is reported as broken regardless)."""
+    return os.path.exists(os.path.join(BUILD, name))
+
+
 # ----------------------------------------------------------------------------------------------
 # S-expressions
 # ----------------------------------------------------------------------------------------------
